@@ -8608,7 +8608,8 @@ class Text(SVGElement, GraphicObject, Transformable):
         self.dy = Length(values.get(SVG_ATTR_DY, self.dy)).value()
 
     def reify(self):
-        GraphicObject.reify(self)
+        # The transform of a text cannot be realized in its attributes and stays in force, so the
+        # stroke width, which that transform scales when the text is drawn, stays as it is too.
         Transformable.reify(self)
 
     def render(self, **kwargs):
